@@ -32,6 +32,21 @@ def main():
         if not ok:
             print(out[-4000:])
             return 1
+        # symbolic-correspondence crate: reference evaluator + Kani codegen (best effort: a failure here only makes
+        # the C13 / C15 checks report their Kani part as inconclusive)
+        import shutil
+        import subprocess
+        kdir = os.path.join(C.VERIF, "kani")
+        env = dict(os.environ, CARGO_NET_OFFLINE="true")
+        lock = os.path.join(C.REPO, "Cargo.lock")
+        if os.path.exists(lock) and not os.path.exists(os.path.join(kdir, "Cargo.lock")):
+            shutil.copy(lock, os.path.join(kdir, "Cargo.lock"))
+        for cmd in (["cargo", "build", "--release", "--bin", "kref"], ["cargo", "kani", "--only-codegen"]):
+            try:
+                p = subprocess.run(cmd, cwd=kdir, env=env, stdout=subprocess.PIPE, stderr=subprocess.STDOUT, timeout=1800)
+                print("setup:", " ".join(cmd), "rc", p.returncode)
+            except (OSError, subprocess.TimeoutExpired) as e:
+                print("setup:", " ".join(cmd), "failed:", e)
     print(f"setup done in {time.time() - t0:.0f}s")
     return 0
 
